@@ -313,6 +313,13 @@ func (p *C02) Gen(seed uint64, i int, tier string) *scen.Scenario {
 	sc.Setup = append(sc.Setup, scen.Op{Op: "set_debug_mode", B: []bool{false}}, scen.Op{Op: "get_debug_mode"}, scen.Op{Op: "snap"})
 	var calls []scen.Op
 	n := r.Range(4, 20)
+	// crowd episodes: 4-8 caller tasks, all on one logger, with destinations that take their time - many calls of one
+	// logger in flight at once (what a hand-over or batching scheme between callers needs to go wrong)
+	crowd := scen.Mix(seed, 1002, uint64(i))%10 == 0
+	crowdL := loggers[int(scen.Mix(seed, 1003, uint64(i))%uint64(len(loggers)))]
+	if crowd {
+		n = 12 + int(scen.Mix(seed, 1004, uint64(i))%20)
+	}
 	bigBase := 0 // > 0: an episode with records far beyond the initial buffer size
 	if r.Chance(1, 10) {
 		bigBase = scen.Pick(r, []int{1100, 4200, 9000, 17000, 34000, 70000, 140000})
@@ -321,6 +328,9 @@ func (p *C02) Gen(seed uint64, i int, tier string) *scen.Scenario {
 		sev := scen.Pick(r, c02Sevs)
 		t := tok(k + 1)
 		l := scen.Pick(r, loggers)
+		if crowd {
+			l = crowdL
+		}
 		var entry string
 		name := sevEntryName[sev]
 		pick := r.Intn(7)
@@ -408,9 +418,15 @@ func (p *C02) Gen(seed uint64, i int, tier string) *scen.Scenario {
 		}
 		calls = append(calls, op)
 	}
-	if r.Chance(1, 4) && len(calls) >= 2 {
+	if (r.Chance(1, 4) || crowd) && len(calls) >= 2 {
 		// the same calls from 2-3 concurrent caller tasks (CONC engine): the per-call I/O history must not change
 		G := r.Range(2, 3)
+		if crowd {
+			G = r.Range(4, 8)
+			for k := r.Range(2, 8); k > 0; k-- {
+				sc.Faults = append(sc.Faults, scen.Fault{W: -1, Attempt: r.Intn(n), Kind: "stall", N: r.Range(1, 4)})
+			}
+		}
 		sc.Engine = "CONC"
 		sc.Sched = scen.SchedCfg{StayPermille: r.Range(300, 950)}
 		for t := 1; t <= G; t++ {
